@@ -945,8 +945,43 @@ func (l *vC01Lab) install(kind, target string) bool {
 				m.Ns = append(s.soa(z), s.nsec(z, z.name)...)
 			}
 		}
-	case "wildcard-replay", "wildcard-replay-decoy": // a name that exists is answered with the zone's genuine wildcard RRset and RRSIG, no next-closer denial
+	case "wildcard-replay", "wildcard-replay-decoy", "wildcard-replay-foreign-nsec", "wildcard-replay-parent-nsec", "wildcard-replay-foreign-nsec3", "wildcard-replay-straddling-nsec":
+		// a name that exists is answered with the zone's genuine wildcard RRset and RRSIG, no next-closer denial of the zone's
+		// own; the -foreign-/-parent-/-straddling- variants pad the authority section with a span over qname that is NOT the
+		// zone's: owned just outside it (unsigned, signed by the parent, hashed) or pointing out of it
+		var pz *vC01LZone
+		for _, z := range l.zones {
+			if z.cuts[strings.ToLower(target)] != nil {
+				pz = z
+			}
+		}
+		lo, hi := vC01Siblings(target)
+		if lo == "" && kind != "wildcard-replay" && kind != "wildcard-replay-decoy" {
+			return false
+		}
 		f = func(s *vC01LServer, z *vC01LZone, q dns.Question, m *dns.Msg) {
+			defer func() {
+				if z != tz || q.Qtype != dns.TypeA || !strings.HasPrefix(strings.ToLower(q.Name), "real.wild.") {
+					return
+				}
+				span := &dns.NSEC{Hdr: dns.RR_Header{Name: lo, Rrtype: dns.TypeNSEC, Class: dns.ClassINET, Ttl: 60}, NextDomain: hi, TypeBitMap: []uint16{dns.TypeA, dns.TypeRRSIG, dns.TypeNSEC}}
+				switch kind {
+				case "wildcard-replay-foreign-nsec":
+					m.Ns = []dns.RR{span}
+				case "wildcard-replay-parent-nsec":
+					m.Ns = []dns.RR{span}
+					if pz != nil && pz.signed && dns.IsSubDomain(pz.name, lo) {
+						m.Ns = s.sign(pz, []dns.RR{span})
+					}
+				case "wildcard-replay-foreign-nsec3":
+					h := vC01H(q.Name)
+					m.Ns = []dns.RR{&dns.NSEC3{Hdr: dns.RR_Header{Name: vC01HashMinus(h) + "." + lo, Rrtype: dns.TypeNSEC3, Class: dns.ClassINET, Ttl: 60}, Hash: dns.SHA1, Iterations: 0, SaltLength: 0, Salt: "", HashLength: 20,
+						NextDomain: vC01HashPlus(h), TypeBitMap: []uint16{dns.TypeA, dns.TypeRRSIG}}}
+				case "wildcard-replay-straddling-nsec":
+					span.Hdr.Name = "a." + z.name
+					m.Ns = []dns.RR{span}
+				}
+			}()
 			if z != tz || q.Qtype != dns.TypeA || !strings.HasPrefix(strings.ToLower(q.Name), "real.wild.") {
 				return
 			}
@@ -1102,7 +1137,8 @@ func TestVerifC01Lab(t *testing.T) {
 	}
 	topos := []string{"separate", "separate", "insecure-child", "wrongds", "shared-secure", "shared-secure", "shared-insecure", "shared-island", "nsec3", "nsec3-optout"}
 	tampers := []string{"none", "none", "strip-sigs", "alter-a", "expired", "signer-name", "bitflip", "labels", "forged-untrusted-key", "dnskey-extra-key",
-		"ds-swap", "ds-drop", "nsec-drop", "nxdomain-forged", "inject-foreign", "island-hijack", "no-anchor", "wildcard-replay", "wildcard-replay-decoy", "parent-denial-nxdomain", "parent-denial-nodata"}
+		"ds-swap", "ds-drop", "nsec-drop", "nxdomain-forged", "inject-foreign", "island-hijack", "no-anchor", "wildcard-replay", "wildcard-replay-decoy", "parent-denial-nxdomain", "parent-denial-nodata",
+		"wildcard-replay-foreign-nsec", "wildcard-replay-parent-nsec", "wildcard-replay-foreign-nsec3", "wildcard-replay-straddling-nsec"}
 	run := func(topo, tam, target string, q tq, origin string) {
 		lab, ok := vC01BuildLab(t, r, topo)
 		if !ok {
@@ -1148,16 +1184,20 @@ func TestVerifC01Lab(t *testing.T) {
 			g := fmt.Sprintf("(mk_labgt %s %s %d %s %s)", vC01Bool(tz.secure), vC01Bool(tam == "none"), q.expect, vC01Bool(anchor), vC01Bool(adOptional))
 			b := fmt.Sprintf("(mk_labobs %s %s %s %s %d %s %s %s %s)", vC01Bool(cd), vC01Bool(do), vC01Bool(ad), vC01Bool(ed), m.Rcode,
 				vC01Bool(m.AuthenticatedData), vC01Bool(vC01HasEDE(m)), vC01Bool(dataOK), vC01Bool(tz.secure))
-			fkey := ""
-			if topo == "shared-island" {
-				fkey = "unsigned-ds-trust-link"
-			}
 			goFail := ""
 			if !cd && tz.secure && m.Rcode != dns.RcodeServerFailure && !dataOK {
 				goFail = "altered data served to a validating client for a name under a signed chain"
 			}
 			if m.AuthenticatedData && !(tz.secure && dataOK) {
 				goFail = "AD set on a reply that is not authentic up to the trust anchor"
+			}
+			// F9 is tagged by what is OBSERVED, not by the topology alone: the island's own published data came back with
+			// AD=1 (the unsigned DS below the insecure cut was taken as a trust link), or — with the two scripts that forge
+			// exactly that unsigned DS — the attacker's data did. Any other failure on this topology is judged strictly.
+			fkey := ""
+			if topo == "shared-island" && strings.EqualFold(target, "sub.zone.tld.") && m.AuthenticatedData &&
+				(dataOK || tam == "ds-swap" || tam == "island-hijack") {
+				fkey = "unsigned-ds-trust-link"
 			}
 			k := fmt.Sprintf("lab:%s:%s", topo, tam)
 			if origin != "" {
@@ -1238,7 +1278,7 @@ func TestVerifC01Lab(t *testing.T) {
 		if tam == "nsec-drop" && forcedQ < 0 {
 			q = qs[2+r.Intn(2)]
 		}
-		if forcedQ < 0 && (tam == "wildcard-replay" || tam == "wildcard-replay-decoy") {
+		if forcedQ < 0 && strings.HasPrefix(tam, "wildcard-replay") {
 			q = qs[6]
 		}
 		if forcedQ < 0 && tam == "parent-denial-nodata" {
